@@ -9,9 +9,9 @@ use crate::out::Out;
 use crate::suite_engine::{Case, Cfg, emit_info};
 use crate::refarith::eval_ref;
 
-struct Ctx { nvars: usize, prior: Vec<Goal>, no_tails: bool }
+struct Ctx { nvars: usize, prior: Vec<Goal>, no_tails: bool, need_cp: bool }
 impl Ctx {
-    fn new() -> Ctx { Ctx{nvars: 0, prior: vec![], no_tails: false} }
+    fn new() -> Ctx { Ctx{nvars: 0, prior: vec![], no_tails: false, need_cp: false} }
     fn fresh(&mut self) -> Unifiable { self.nvars += 1; logic_var!(format!("$V{}", self.nvars)) }
     /// the value written literally, or reached through a chain of 1-3 bound variables
     fn operand(&mut self, r: &mut Rng, value: Unifiable) -> Unifiable {
@@ -37,7 +37,15 @@ fn make_case(ctx: &Ctx, goal: Option<Goal>) -> Case {
     let mut gs = ctx.prior.clone();
     if let Some(g) = goal { gs.push(g); }
     let body = if gs.is_empty() { Goal::Nil } else if gs.len() == 1 { gs.pop().unwrap() } else { Goal::OperatorGoal(Operator::And(gs)) };
-    Case{rules: vec![Rule{head: Unifiable::SComplex(head), body}], query, max_calls: 4, extra: 1}
+    let mut rules = vec![Rule{head: Unifiable::SComplex(head), body}];
+    if ctx.need_cp {
+        // cp([], []).   cp([$H | $T], [$H | $T2]) :- cp($T, $T2).
+        // a list copied by this recursive rule is a chain of tail variables that all have the NAME $T2, under different ids
+        rules.push(Rule{head: scomplex!(atom!("cp"), proper_list(vec![], None), proper_list(vec![], None)), body: Goal::Nil});
+        rules.push(Rule{head: scomplex!(atom!("cp"), proper_list(vec![logic_var!("$H")], Some(logic_var!("$T"))), proper_list(vec![logic_var!("$H")], Some(logic_var!("$T2")))),
+                        body: Goal::ComplexGoal(scomplex!(atom!("cp"), logic_var!("$T"), logic_var!("$T2")))});
+    }
+    Case{rules, query, max_calls: 4, extra: 1}
 }
 
 /// argument i (1-based) of the resolved answer `t(...)`, as encoded text
@@ -242,7 +250,15 @@ fn gen_list_arg_of(ctx: &mut Ctx, r: &mut Rng, elems: Vec<Unifiable>) -> (Unifia
     let logical = elems.clone();
     let elems = written_elems;
     let _ = &logical;
-    if n >= 2 && !ctx.no_tails && r.chance(1, 3) {
+    if n >= 2 && !ctx.no_tails && r.chance(1, 5) {
+        // the list reaches the built-in as the copy made by a recursive rule: `cp([e1, ..., en], $L)` binds $L to a chain of
+        // n tail variables of the same name and different ids
+        let l = ctx.fresh();
+        ctx.prior.push(Goal::ComplexGoal(scomplex!(atom!("cp"), proper_list(elems.clone(), None), l.clone())));
+        ctx.need_cp = true;
+        let w = ctx.operand(r, l);
+        (w, logical)
+    } else if n >= 2 && !ctx.no_tails && r.chance(1, 3) {
         // the list is written in 2-4 pieces chained through bound tail variables:
         // `[e1 | $T1]`, `$T1 = [e2, e3 | $T2]`, `$T2 = [e4]` (the last piece may be the empty list)
         let mut cuts = vec![1 + r.below(n - 1)];
@@ -377,9 +393,30 @@ pub fn run_c17_random(out: &mut Out, cfg: &Cfg, seed: u64, n: usize, only_filter
                 }))
             },
             1 | 2 => { // include / exclude
-                let (w, es) = gen_list_arg(&mut ctx, &mut r);
-                let pat = match r.below(5) { 0 => atom!("a"), 1 => Unifiable::Anonymous, 2 => ctx.fresh(), 3 => proper_list(vec![Unifiable::Anonymous], None), _ => scomplex!(atom!("f"), ctx.fresh()) };
                 let incl = kind == 1;
+                let (w, es, pat) = if !ctx.no_tails && r.chance(1, 4) {
+                    // a list written as a front piece of k elements and a bound tail variable (k + 1 nodes), in which exactly
+                    // k + 1 elements are kept and at least one is dropped: the kept count equals the written node count
+                    let k = 1 + r.below(3); let dropped = 1 + r.below(2); let n = k + 1 + dropped;
+                    let use_f = r.chance(1, 2);
+                    let pass = |r: &mut Rng| -> Unifiable { if use_f { scomplex!(atom!("f"), r.pick(&[atom!("x"), SInteger(1), atom!("y")]).clone()) } else { atom!("a") } };
+                    let fail = |r: &mut Rng| -> Unifiable { if use_f { r.pick(&[scomplex!(atom!("g"), atom!("x")), atom!("f"), SInteger(2)]).clone() } else { r.pick(&[atom!("b"), SInteger(1), scomplex!(atom!("a"), atom!("x"))]).clone() } };
+                    // for include the kept ones match the pattern, for exclude the kept ones are those that do not
+                    let mut kinds: Vec<bool> = vec![true; k + 1]; kinds.extend(vec![false; dropped]);
+                    for i in (1..kinds.len()).rev() { let j = r.below(i + 1); kinds.swap(i, j); }
+                    let es: Vec<Unifiable> = kinds.iter().map(|keep| if *keep == incl { pass(&mut r) } else { fail(&mut r) }).collect();
+                    let _ = n;
+                    let tailv = ctx.fresh();
+                    ctx.prior.push(unify_goal(tailv.clone(), proper_list(es[k..].to_vec(), None)));
+                    let written = proper_list(es[..k].to_vec(), Some(tailv));
+                    let w = ctx.operand(&mut r, written);
+                    let pat = if use_f { scomplex!(atom!("f"), ctx.fresh()) } else { atom!("a") };
+                    (w, es, pat)
+                } else {
+                    let (w, es) = gen_list_arg(&mut ctx, &mut r);
+                    let pat = match r.below(5) { 0 => atom!("a"), 1 => Unifiable::Anonymous, 2 => ctx.fresh(), 3 => proper_list(vec![Unifiable::Anonymous], None), _ => scomplex!(atom!("f"), ctx.fresh()) };
+                    (w, es, pat)
+                };
                 let empty: SubstitutionSet = vec![];
                 let keep: Vec<Unifiable> = es.iter().filter(|e| {
                     // element unifies with the pattern (pattern variables are unbound, renamed apart: ids 9001..)
@@ -406,8 +443,9 @@ pub fn run_c17_random(out: &mut Out, cfg: &Cfg, seed: u64, n: usize, only_filter
                 let mode = r.below(4);
                 let (second, exp_ok): (Unifiable, bool) = match mode {
                     0 => (res.clone(), true),
-                    1 => (atom!(name), true),
-                    2 => { let p = *r.pick(&["noun*", "n*", "verb*", "x*", "*"]); (atom!(p), name.starts_with(&p[..p.len()-1])) },
+                    // the name / the prefix pattern written literally, or reached through a chain of bound variables
+                    1 => (ctx.operand(&mut r, atom!(name)), true),
+                    2 => { let p = *r.pick(&["noun*", "n*", "verb*", "x*", "*"]); (ctx.operand(&mut r, atom!(p)), name.starts_with(&p[..p.len()-1])) },
                     _ => (atom!("zzz"), false),
                 };
                 let ri = var_index(&res); let ai = var_index(&ar); let nm = name.to_string();
